@@ -24,7 +24,8 @@ DECIDES = ('For the symbolic divisor (all divisors at once) and for concrete div
            'decremented with the shift exactly on (uart ready & bytes>0), wide enough; uart valid is raised only in the '
            'sending state and covers every hand-over; (g) the word stream is ready only in idle or on '
            '(uart ready & bytes==0), words are loaded exactly on accept, and the sending state is left only on '
-           '(uart ready & bytes==0 & ~valid). ')
+           '(uart ready & bytes==0 & ~valid). '
+           '(h) words-exact: the one-cycle relation of UARTMultibyteTransmitter x a monitor of the bytes still due, explored exhaustively with uart ready, stream.valid and two words of distinct bytes free every cycle: every byte handed to the inner UART is the next one due, nothing is handed over when nothing is due, no word is accepted while bytes of the previous one remain; where the per-site obligations do not recognise the shape of the load / ready logic they are skipped and this decision stands. ')
 NOT_DECIDED = ('the idle/driving status outputs; that the transmitter returns to the idle state at all (staying in the '
                'shifting state with an all-ones register is equally correct); reset values of the registers other than tx.')
 
@@ -603,6 +604,90 @@ def frame_exact(ctx, d):
     return bad is None
 
 
+def words_exact(ctx, bw):
+    """Semantic decision for one byte width: the one-cycle relation of UARTMultibyteTransmitter (cone of influence of what it
+    offers the inner UART and of stream.ready; the inner UART is its environment: its stream.ready is a free input every
+    cycle) is composed with a reference monitor -- the bytes of the accepted word still to be handed over, low byte first, at
+    most one further accepted word waiting -- and every reachable product state is explored under stream.valid in {0, 1},
+    uart ready in {0, 1} and two words of pairwise distinct bytes.  Whenever a byte is handed over (uart valid & ready) it must
+    be the next byte due; nothing may be handed over when no byte is due; no word may be accepted while another one is still
+    waiting.  Independent of where the load and the ready decision are written (inside the states or at module level)."""
+    from ..num import Stepper, NoEval
+    from ..ir import AnalysisError
+    C = 'UARTMultibyteTransmitter'
+    ir = ctx.ir(C, MOD, byte_width=bw, divisor=4)
+    subs = [s_ for s_ in ir.submodules if s_.obj.clsname == 'UARTTransmitter']
+    ctx.need(len(subs) == 1, 'the inner UARTTransmitter of %s' % C)
+    u = subs[0].name if (subs[0].name + '.tx') in ir.signals else subs[0].obj.path
+    RDY, VLD, PAY = 'self.stream.ready', 'self.stream.valid', 'self.stream.payload'
+    UV, UR, UP = u + '.stream.valid', u + '.stream.ready', u + '.stream.payload'
+    try:
+        st = Stepper(ir)
+        st.restrict({UV, UP, RDY})
+    except AnalysisError as ex:
+        ctx.need(False, 'one-cycle semantics of %s (%s)' % (C, ex))
+    fkeys = ['$fsm%s' % f.id for f in ir.fsms]
+    names = list(st.regs) + fkeys
+    regs0 = tuple(st.inits.get(r, 0) for r in st.regs) + tuple(f.init for f in ir.fsms)
+    words = [sum((0x11 * (i + 1)) << (8 * i) for i in range(bw)), sum((0xA1 + i) << (8 * i) for i in range(bw))]
+
+    def bytes_of(w):
+        return tuple((w >> (8 * i)) & 0xFF for i in range(bw))
+    start = (regs0, ((), None))                # monitor: (bytes still due of the word in flight, waiting word or None)
+    seen, work, bad, n_eval, handed, accepted = {start}, [start], None, 0, 0, 0
+    while work and bad is None:
+        regs, (due, wait) = work.pop()
+        try:
+            for valid in (0, 1):
+                for pay in (words if valid else words[:1]):
+                    for ur in (0, 1):
+                        env = dict(zip(names, regs))
+                        env.update({VLD: valid, PAY: pay, UR: ur})
+                        envc, nxt = st.step(env)
+                        n_eval += 1
+                        d_, w_ = due, wait
+                        if not d_ and w_ is not None:
+                            d_, w_ = bytes_of(w_), None
+                        if envc.get(UV) and ur:
+                            handed += 1
+                            got = envc.get(UP, 0) & 0xFF
+                            if not d_:
+                                bad = 'byte 0x%02x is handed to the inner UART although no byte of an accepted word is due (registers %s)' % (
+                                    got, dict(zip(names, regs)))
+                                break
+                            if got != d_[0]:
+                                bad = 'byte 0x%02x is handed to the inner UART where byte 0x%02x of the accepted word is due (%d byte(s) ' \
+                                      'left; registers %s)' % (got, d_[0], len(d_), dict(zip(names, regs)))
+                                break
+                            d_ = d_[1:]
+                        if valid and envc.get(RDY):
+                            accepted += 1
+                            if w_ is not None:
+                                bad = 'a word is accepted while word %#x is still waiting (registers %s)' % (w_, dict(zip(names, regs)))
+                                break
+                            if d_:
+                                bad = 'a word is accepted while %d byte(s) of the previous word are still to be handed over: they are ' \
+                                      'overwritten (registers %s, uart ready=%d)' % (len(d_), dict(zip(names, regs)), ur)
+                                break
+                            w_ = pay
+                        nx = (tuple(nxt[k] for k in names), (d_, w_))
+                        if nx not in seen:
+                            seen.add(nx)
+                            work.append(nx)
+                    if bad:
+                        break
+                if bad:
+                    break
+        except NoEval as ex:
+            ctx.need(False, '%s evaluates under stream.valid / stream.payload / uart ready alone (%s)' % (C, ex))
+    ctx.need(bad is not None or (accepted >= 4 and handed >= 4 * bw), 'product exploration of %s accepts and hands over words' % C)
+    loc = ir.drivers(UP, exact=True)[0].loc if ir.drivers(UP, exact=True) else None
+    ctx.ob('C49.words-exact', '%s.hand-over[bytes=%d]' % (C, bw), bad is None, loc,
+           'the inner UART is handed exactly the bytes of every accepted word, low byte first, none lost, repeated or overwritten, '
+           'for every hand-over timing: %s  [%d product states, %d evaluations]' % (bad, len(seen), n_eval))
+    return bad is None
+
+
 def run(ctx):
     from ..ir import AnalysisError
     sem_ok = all([frame_exact(ctx, d) for d in ((2,) if ctx.tier != 'thorough' else (1, 2, 3))])
@@ -616,13 +701,25 @@ def run(ctx):
         ctx.note('C49: structural obligations of UARTTransmitter skipped (%s); decided by C49.frame-exact (%s)' % (
             ex, 'held' if sem_ok else 'violated'))
         ctx.floor_override = 40            # the semantic obligations and the multi-byte part remain
-    check_multibyte(ctx, 4, None)
-    check_multibyte(ctx, 1, 4)
-    check_multibyte(ctx, 2, 3)
+    mb_ok = all([words_exact(ctx, bw) for bw in ((1, 2, 4) if ctx.tier != 'thorough' else (1, 2, 3, 4, 5, 8))])
+    try:
+        check_multibyte(ctx, 4, None)
+        check_multibyte(ctx, 1, 4)
+        check_multibyte(ctx, 2, 3)
+    except AnalysisError as ex:
+        # load / ready decisions written in a shape the per-site obligations do not recognise (e.g. at module level): the
+        # semantic decision above stands; the per-site diagnostics are skipped, not failed
+        ctx.note('C49: per-site obligations of UARTMultibyteTransmitter skipped (%s); decided by C49.words-exact (%s)' % (
+            ex, 'held' if mb_ok else 'violated'))
+        ctx.floor_override = 40
     if ctx.tier == 'thorough':
         for d in (3, 4, 7, 10, 104, 217, 868, 5208, 65536):
             check_uart(ctx, d)
-        for bw in (1, 2, 3, 4, 5, 8, 16):
-            for d in (None, 1, 10):
-                if (bw, d) not in ((4, None),):
-                    check_multibyte(ctx, bw, d)
+        try:
+            for bw in (1, 2, 3, 4, 5, 8, 16):
+                for d in (None, 1, 10):
+                    if (bw, d) not in ((4, None),):
+                        check_multibyte(ctx, bw, d)
+        except AnalysisError as ex:
+            ctx.note('C49: per-site obligations of UARTMultibyteTransmitter skipped (%s); decided by C49.words-exact' % ex)
+            ctx.floor_override = 40
